@@ -306,6 +306,22 @@ def Obs.violations (o : Obs) : List String :=
   (if !o.final || o.exit.isSome || o.calls.all (fun c => !(c.accepted && decide (c.epoch ≤ 1))) then []
    else ["request-accepted-but-actor-runs-on"])
 
+/-- The clauses that need no knowledge of *when* (relative to the loop) a request was made: what a
+free-running run (real threads, no schedule points, multi-threaded runtime) can be judged by. -/
+def Obs.freeViolations (o : Obs) : List String :=
+  (if o.calls.countP Call.stopAcc ≤ 1 then [] else ["two-stop-requests-accepted"]) ++
+  (if o.calls.countP Call.killAcc ≤ 1 then [] else ["two-kill-requests-accepted"]) ++
+  (match o.exit with
+   | none => []
+   | some .killed => if o.calls.any Call.killAcc then [] else ["exit-reason-not-an-accepted-request"]
+   | some (.stop x) =>
+     if o.calls.any (fun c => c.stopAcc && c.reason == x) then []
+     else if o.calls.any (fun c => !c.kill && !c.accepted && c.reason == x) then ["refused-stop-reason-won"]
+     else ["exit-reason-not-an-accepted-request"]
+   | some .drained => if o.marker then [] else ["exit-reason-not-an-accepted-request"]) ++
+  (if !o.final || o.exit.isSome || o.calls.all (fun c => !c.accepted) then []
+   else ["request-accepted-but-actor-runs-on"])
+
 def obsOf (s : S) (final : Bool) : Obs :=
   { calls := s.calls, exit := s.phase.exit?, marker := s.marker, handledOverPort := s.handledOverPort,
     final := final }
